@@ -388,10 +388,15 @@ def check_filter(case, ctx):
     est = build.make_estimator(case["spec"])
     t1 = tuple1_flag(case)
     w_arg = None if weights is None else pack(weights, t1)
-    out = quiet(est.filter, coords, pack(data, t1), w_arg)
+    # a quarter of the cases hand the coordinates over as one stacked array (the return form of longitude_continuity); what comes back is compared
+    # with a copy taken beforehand, so that writing into the caller's array does not go unnoticed
+    given = build.maybe_stack(tuple(np.asarray(c, dtype="float64") for c in coords), build.stack_flag(case))
+    before = [np.array(c, copy=True) for c in coords]
+    out = quiet(est.filter, given, pack(data, t1), w_arg)
     ctx.check(isinstance(out, tuple) and len(out) == 3, "filter must return (coordinates, residuals, weights)")
     oc, res, ow = out
-    ctx.check(len(oc) == len(coords) and all(np.array_equal(a, b) for a, b in zip(oc, coords)), "filter changed the coordinates")
+    ctx.check(len(oc) == len(coords) and all(np.array_equal(a, b) for a, b in zip(oc, before)), "filter did not return the coordinates it was given (or wrote into them)")
+    ctx.check(all(np.array_equal(a, b) for a, b in zip(given, before)), "filter wrote into the coordinate array it was given")
     if weights is None:
         ctx.check(ow is None, "filter invented weights")
     else:
